@@ -42,23 +42,86 @@ theorem toInstr_obs (i : Cfa) : (toInstr i).toVal = instrObs i := rfl
 example : Cfa.wf 8 (.val_offset_sf ⟨3, 300⟩ ⟨2, -65⟩) = true := by decide      -- padded operands
 example : (Cfa.enc true 8 (.def_cfa_expression ⟨2, [0x77, 0x08]⟩)) = [0x0f, 0x82, 0x00, 0x77, 0x08] := by decide
 
-/-! ### entries_exact (partial)
+/-! ### entries_exact: the section scan returns exactly the entries of the section
 
-  FULL STATEMENT (not proved; covered by the correspondence harness, streams `sec` and `raw`):
+  FULL STATEMENT:
 
-    entries_exact : ∀ (sec : Section), sec.wf = true →
-        (parseEntries (cfiOf sec (encodeSection sec)) (encodeSection sec).length).map
-            (fun es => es.map (Entry.toVal Spec.cfiTables))  ≈  .ok (obsFrom sec 0 sec.entries)
-    -- entries in section order with kind, offset, header fields, augmentation bytes/dict, pc-relative
-    -- adjustment `+ address + field offset`, LSDA pointer, FDE → CIE link (also for an FDE that precedes its
-    -- CIE), instruction split; `≈` = equal up to the pyelftools-only `order` field and with the table
-    -- related by `LineRel`.
+    entries_exact : ∀ (sec : Section) (env : Env), sec.wf = true → (encodeSection sec).length < 2 ^ 63 →
+        parseEntries (cfiOf sec env (encodeSection sec)) (encodeSection sec).length
+          = .ok (modelFrom sec 0 sec.entries)
+    -- `modelFrom sec 0 sec.entries` = for each Spec entry, in section order, THE object the library must build
+    -- (`modelOf`: kind, offset, header fields, augmentation bytes/dict, pc-relative adjustment
+    -- `+ address + field offset`, LSDA pointer, the FDE's `cie` being the object built for the designated CIE —
+    -- also when the FDE precedes its CIE —, instruction list).  `entries_observe` below turns it into the
+    -- observation `observeSection sec`: every field of `Entry.toVal` except `order` (pyelftools-only) equals
+    -- `Entry.obs`, and the decoded table is related by `LineRel` to the Spec's table where the Spec defines one.
+    -- `(encodeSection sec).length < 2 ^ 63`: a stream offset is a C `Py_ssize_t` (`seekPos`).
 
-  PROVED below: the parts of the scan that do not depend on symbolic evaluation of the CIE/FDE header
-  `Struct`s: zero terminator, cache hit (the refinement fact behind "each FDE is linked to THE CIE object its
-  pointer designates"), the CIE-pointer arithmetic of both section kinds, and the instruction split
-  (`cfa_instrs_roundtrip`).  MISSING: the header parses (`Dwarf_CIE_header`, `Dwarf_FDE_header`, the
-  augmentation `Struct` built at run time, pointer-encoded fields) and the induction over the entry list. -/
+  PROVED at full strength for `.debug_frame` (`entries_exact_debug_frame`: CIE versions 1/3/4, DWARF32/64,
+  address size 4/8, any interleaving incl. an FDE before its CIE), and for `.eh_frame` reduced to ONE remaining
+  single-entry fact (`entries_exact_partial` with hypothesis `FdeMissOk`): everything else of the `.eh_frame` scan
+  is proved — zero terminators, the cache invariant and induction over the entry list, CIEs with every
+  augmentation over 'z','R','L','P','S' and every pointer encoding (`cie_entry_exact`), FDE → CIE link
+  arithmetic (`Proofs.Cfi.link_ok`), and all header/pointer parse lemmas an `.eh_frame` FDE needs
+  (`Proofs.Cfi.sp_fde_min`, `sp_fde_full`, `parse_ptr`, `readAug_ok`, `lsda_ok`, `dict_fdeEnc`, `dict_lsdaEnc`).
+  MISSING: assembling these into `FdeMissOk` for `sec.eh = true` (the `.eh_frame` branch of `_parse_fde_header`
+  and the augmentation/LSDA block of `_parse_entry_at`).  Two Spec side conditions that assembly needs are not yet
+  in `Spec.Fde.wf` and would have to be added to it: the `.eh_frame` CIE pointer `off + 4 - offsetOf cie` fits
+  its 4-byte field (`< 2^32`), and the FDE's augmentation data length fits `augLenN` LEB128 bytes
+  (`< 2^(7*augLenN)`, as `Cie.wf` already demands for the CIE). -/
+
+/-- `.debug_frame`, full strength -/
+theorem entries_exact_debug_frame (sec : Section) (env : Env) (hwf : sec.wf = true) (heh : sec.eh = false)
+    (hsz : (encodeSection sec).length < 2 ^ 63) :
+    parseEntries (cfiOf sec env (encodeSection sec)) (encodeSection sec).length = .ok (modelFrom sec 0 sec.entries) :=
+  parseEntries_ok sec env hwf hsz (fdeMissOk_df sec env hwf hsz heh)
+
+/-- both section kinds, given the single-entry fact for an FDE that is not in the cache (`FdeMissOk`;
+    proved for `.debug_frame`, `fdeMissOk_df`) -/
+theorem entries_exact_partial (sec : Section) (env : Env) (hwf : sec.wf = true)
+    (hsz : (encodeSection sec).length < 2 ^ 63) (hfde : FdeMissOk sec env) :
+    parseEntries (cfiOf sec env (encodeSection sec)) (encodeSection sec).length = .ok (modelFrom sec 0 sec.entries) :=
+  parseEntries_ok sec env hwf hsz hfde
+
+/-- `.eh_frame` (or any section) without FDEs: CIEs with any augmentation, zero terminators -/
+theorem entries_exact_no_fde (sec : Section) (env : Env) (hwf : sec.wf = true)
+    (hsz : (encodeSection sec).length < 2 ^ 63) (h : ∀ f, Spec.Entry.fde f ∉ sec.entries) :
+    parseEntries (cfiOf sec env (encodeSection sec)) (encodeSection sec).length = .ok (modelFrom sec 0 sec.entries) :=
+  parseEntries_ok sec env hwf hsz (fdeMissOk_noFde sec env h)
+
+/-- one CIE anywhere in a well-formed section of either kind, with a cold cache: header fields (all versions,
+    both DWARF formats), augmentation string/data/dictionary for every augmentation over the property's
+    alphabet and every pointer encoding of the personality routine, instruction list; cached under its offset -/
+theorem cie_entry_exact (sec : Section) (env : Env) (hwf : sec.wf = true) (hsz : (encodeSection sec).length < 2 ^ 63)
+    (j : Nat) (c : Cie) (hj : sec.entries[j]? = some (.cie c)) (fuel pos : Nat) (cache : Cache)
+    (hmiss : cache.get (sec.offsetOf j : Int) = none) :
+    parseEntryAt (cfiOf sec env (encodeSection sec)) (fuel + 1) (sec.offsetOf j) pos cache
+      = .ok (mCie sec (sec.offsetOf j) c, sec.offsetOf j + Spec.Entry.size sec (.cie c),
+             ((sec.offsetOf j : Int), mCie sec (sec.offsetOf j) c) :: cache) :=
+  cie_miss sec env hwf hsz j c hj fuel pos cache hmiss
+
+/-- the objects of `modelFrom` show exactly `observeSection sec`: all fields but the table and `order` … -/
+theorem entries_observe (sec : Section) (hwf : sec.wf = true) :
+    All₂ (fun m v => coreVal (Model.Entry.toVal Spec.cfiTables m) = coreVal v)
+      (modelFrom sec 0 sec.entries) (obsFrom sec 0 sec.entries) := by
+  simp only [Section.wf, Bool.and_eq_true] at hwf
+  exact core_from sec sec.entries 0 hwf.2
+
+/-- … and the decoded table of entry `i` is the Spec's table (`stdTableOf` is the argument of `tableObs` in
+    `Entry.obs`) wherever the Spec defines one -/
+theorem entries_table (sec : Section) (hwf : sec.wf = true) (i : Nat) (se : Spec.Entry)
+    (hi : sec.entries[i]? = some se) (rows : List Row) (hstd : stdTableOf sec (sec.offsetOf i) se = some rows) :
+    ∃ d, decodeTable Spec.cfiTables (modelOf sec (sec.offsetOf i) se) = .ok d ∧ All₂ LineRel d.table rows :=
+  modelOf_table sec hwf i se hi rows hstd
+
+/-- non-vacuity: a `.debug_frame` section whose FDE precedes its CIE (DWARF64 FDE, version-4 CIE) -/
+def exSec : Section :=
+  { eh := false, le := true, asz := 8, address := 0,
+    entries := [.fde { fmt64 := true, cie := 1, loc := 0x401000, range := 0x20, lsda := 0, augLenN := 1,
+                       instrs := [.advance_loc 4, .def_cfa_offset ⟨1, 16⟩] },
+                .cie { fmt64 := false, version := 4, aug := none, augLenN := 1, addrSize := 8, segSize := 0,
+                       caf := ⟨1, 1⟩, daf := ⟨1, -8⟩, ra := ⟨1, 16⟩, instrs := [.def_cfa ⟨1, 7⟩ ⟨1, 8⟩, .offset 16 ⟨1, 1⟩] }] }
+example : exSec.wf = true ∧ exSec.eh = false ∧ (encodeSection exSec).length < 2 ^ 63 := by decide
 
 theorem entry_zero_exact (C : Cfi) (S32 : DwarfStructs) (le : Bool) (fuel off pos : Nat) (cache : Cache) (rest : Bytes)
     (heh : C.eh = true) (hS : C.structs 32 = .ok S32) (hu32 : S32.the_Dwarf_uint32 = .uint 4 le)
